@@ -88,11 +88,11 @@ def main():
     lines = []; meta = []
     for fam in ('uri', 'iri'):
         gg = Gen(random.Random(rnd.random()), fam)
-        for _ in range(8000 if thorough else 1500):
+        for _ in range(40000 if thorough else 1500):
             p = gg.parts()
             lines.append('conv\t%s' % hexs(Gen.compose(p))); meta.append(Gen.compose(p).encode())
     for t in ('uri_reference', 'iri_reference'):
-        for b in c01.sample_strings(dfas[t], random.Random(rnd.random()), 3000 if thorough else 600):
+        for b in c01.sample_strings(dfas[t], random.Random(rnd.random()), 15000 if thorough else 600):
             lines.append('conv\t%s' % hexs(b)); meta.append(b)
     impl = run_lines(harness, lines)
     nviol = 0; classes = set()
@@ -131,7 +131,7 @@ def main():
         ul.append(fmt_u); il.append(fmt_i if fmt_i is not None else fmt_u.replace('\turi', '\tiri', 1))
     gu = Gen(random.Random(rnd.random()), 'uri')
     SEG = ['a', 'b', 'c', '', '.', '..', '%61', 'b:c', 'zz']
-    for _ in range(4000 if thorough else 800):
+    for _ in range(20000 if thorough else 800):
         p = gu.parts(); b = Gen.compose(p)
         q = cmpgen.equal_variant(gu, p) if gu.r.random() < 0.4 else (cmpgen.mutate_one(gu, p) or gu.parts())
         both('ref\turiref\t' + hexs(b))
